@@ -94,6 +94,7 @@ void COSdoEnable(CO_SDO *srv, uint8_t num)
 CO_SDO *COSdoCheck(CO_SDO *srv, CO_IF_FRM *frm)
 {
     CO_SDO  *result = 0;
+    uint8_t  cmd;
     uint8_t  n;
 
     if (frm != 0) {
@@ -103,7 +104,15 @@ CO_SDO *COSdoCheck(CO_SDO *srv, CO_IF_FRM *frm)
                 CO_SET_ID(frm, srv[n].TxId);
                 srv[n].Frm   = frm;
                 srv[n].Abort = 0;
-                if (srv[n].Obj == 0) {
+                cmd = CO_GET_BYTE(frm, 0);
+                if ((srv[n].Obj == 0) ||
+                    ((srv[n].Blk.State == BLK_IDLE) &&
+                     (((cmd & 0xE0) == 0x20) ||      /* init download       */
+                      ((cmd & 0xE0) == 0x40) ||      /* init upload         */
+                      ((cmd & 0xE1) == 0xC0) ||      /* init block download */
+                      ((cmd & 0xE3) == 0xA0)))) {    /* init block upload   */
+                    /* a new initiate request drops a pending transfer */
+                    srv[n].Obj = 0;
                     srv[n].Idx = CO_GET_WORD(frm, 1);
                     srv[n].Sub = CO_GET_BYTE(frm, 3);
                 }
